@@ -13,7 +13,7 @@ import sys
 import time
 import traceback
 
-MAX_FAILURES = 25
+MAX_FAILURES = 80
 
 
 def _short(x, n=300):
@@ -37,7 +37,24 @@ def run_case(mod, name, case):
     return r
 
 
+_POOL_MOD = None
+_POOL_CASES = None
+
+
+def _pool_run(i):
+    name, case = _POOL_CASES[i]
+    return run_case(_POOL_MOD, name, case)
+
+
+def _warm_run(i):
+    try:
+        _POOL_CASES[i]()
+    except Exception:
+        pass        # failures surface in the cases themselves
+
+
 def main(mod):
+    global _POOL_MOD, _POOL_CASES
     ap = argparse.ArgumentParser()
     ap.add_argument('--tier', default='quick')
     ap.add_argument('--seed', type=int, default=0)
@@ -68,7 +85,16 @@ def main(mod):
     failures = []
     samples = []
     per_check = {}
+    if hasattr(mod, 'warmup'):
+        # independent expensive preparations (compiling forms into the on-disk module cache) run in parallel first
+        import multiprocessing as mp
+        jobs = mod.warmup(a.tier)
+        _POOL_CASES = jobs
+        with mp.get_context('fork').Pool(min(16, max(1, len(jobs)))) as pool:
+            pool.map(_warm_run, range(len(jobs)), chunksize=1)
     gen = iter(mod.generate(a.tier, rng))
+    procs = int(getattr(mod, 'PROCS', 1))
+    pending = []
     while True:
         try:
             item = next(gen)
@@ -88,9 +114,21 @@ def main(mod):
             distinct.add((name, key))
         if len(samples) < 6 and per_check[name] <= 1:
             samples.append({'check': name, 'input': json.loads(_short(case, 100000)) if len(_short(case, 100000)) < 400 else _short(case, 300)})
+        if procs > 1:
+            pending.append((name, case))
+            continue
         msg = run_case(mod, name, case)
         if msg:
             if len(failures) < MAX_FAILURES:
+                failures.append({'id': case_id(name, case), 'check': name, 'input': case, 'observed': msg})
+    if pending:
+        # independent cases of modules that declare PROCS are evaluated by a fork pool (results in case order)
+        import multiprocessing as mp
+        _POOL_MOD, _POOL_CASES = mod, pending
+        with mp.get_context('fork').Pool(procs) as pool:
+            msgs = pool.map(_pool_run, range(len(pending)), chunksize=1)
+        for (name, case), msg in zip(pending, msgs):
+            if msg and len(failures) < MAX_FAILURES:
                 failures.append({'id': case_id(name, case), 'check': name, 'input': case, 'observed': msg})
     out = {'evaluations': n, 'distinct_nontrivial': len(distinct), 'failures': failures, 'samples': samples,
            'domain': mod.DOMAIN.get(a.tier, '') if isinstance(mod.DOMAIN, dict) else mod.DOMAIN,
